@@ -2,6 +2,7 @@
 package c02
 
 import (
+	"flag"
 	"bytes"
 	"context"
 	"crypto/md5"
@@ -1279,12 +1280,19 @@ func TestBoundary16MiB(t *testing.T) {
 	defer debug.SetGCPercent(debug.SetGCPercent(40))
 	// every back end gets its own cases (one each in the quick tier): with a drawn back end six quick cases
 	// left four of the ten unvisited
+	// a failing case moves 16 MiB on every shrink attempt and has little to shrink: bound the shrinking, and
+	// stop at the first back end that fails (a change in the shared receive path fails all ten)
+	flag.Set("rapid.shrinktime", "8s")
+	defer flag.Set("rapid.shrinktime", "30s")
 	for _, root := range rootTypes {
-		t.Run(root, func(t *testing.T) {
+		ok := t.Run(root, func(t *testing.T) {
 			evid.Check(t, 1, 5, func(t *rapid.T) {
 				runBoundary(t, root)
 				debug.FreeOSMemory()
 			})
 		})
+		if !ok {
+			break
+		}
 	}
 }
